@@ -281,4 +281,140 @@ theorem isPending_snoc_resolve (env : Env V) (ex : Exports) (ops : List (Op V)) 
       have : ¬ (j = p.id) := fun h => hne h.symm
       simp [firstResolve, this]
 
+/-! ### the invariant of `run` -/
+
+/-- After a history: the operation counter, who is pending, and the events of every call. -/
+def RunInv (env : Env V) (ex : Exports) (ops : List (Op V)) : Prop :=
+  (run env ex ops).1.next = ops.length ∧
+  (∀ p, p ∈ (run env ex ops).1.pending ↔ IsPending env ex ops p) ∧
+  (∀ k, eventsOf k (run env ex ops).2 = callEvents env ex ops k)
+
+theorem runInv_nil (env : Env V) (ex : Exports) : RunInv env ex ([] : List (Op V)) := by
+  refine ⟨rfl, ?_, ?_⟩
+  · intro p
+    constructor
+    · intro h; simp [run, runFrom, State.init] at h
+    · intro h; have := h.lt; simp at this
+  · intro k; rfl
+
+theorem runInv_snoc (env : Env V) (ex : Exports) (ops : List (Op V)) (op : Op V)
+    (ih : RunInv env ex ops) : RunInv env ex (ops ++ [op]) := by
+  obtain ⟨hn, hp, he⟩ := ih
+  unfold RunInv
+  rw [run_snoc]
+  cases op with
+  | call c b =>
+    simp only [step, hn]
+    refine ⟨by simp, ?_, ?_⟩
+    · intro p
+      rw [isPending_snoc_call]
+      cases hr : (handleCall env ex ops.length c b).2 with
+      | none =>
+        simp only [hp]
+        constructor
+        · intro h; exact Or.inl h
+        · rintro (h | ⟨_, h⟩)
+          · exact h
+          · simp at h
+      | some q =>
+        simp only [List.mem_cons, hp]
+        constructor
+        · rintro (h | h)
+          · subst h
+            exact Or.inr ⟨handleCall_pending_id env ex _ c b p hr, rfl⟩
+          · exact Or.inl h
+        · rintro (h | ⟨_, h⟩)
+          · exact Or.inr h
+          · injection h with h; exact Or.inl h.symm
+    · intro k
+      rw [eventsOf_append, eventsOf_tag, he, callEvents_snoc_call]
+      by_cases hk : k = ops.length
+      · subst hk
+        simp [callEvents_ge]
+      · have : ¬ (ops.length = k) := fun h => hk h.symm
+        simp [hk, this]
+  | resolve j res =>
+    simp only [step, hn]
+    cases hf : (run env ex ops).1.pending.find? (fun p => decide (p.id = j)) with
+    | none =>
+      simp only
+      have hnone : ∀ p, p ∈ (run env ex ops).1.pending → p.id ≠ j := by
+        intro p hm
+        have := List.find?_eq_none.mp hf p hm
+        simpa using this
+      refine ⟨by simp, ?_, ?_⟩
+      · intro p
+        rw [isPending_snoc_resolve, ← hp]
+        constructor
+        · intro h; exact ⟨h, hnone p h⟩
+        · intro h; exact h.1
+      · intro k
+        rw [List.append_nil, he, callEvents_snoc_resolve]
+        unfold callEvents
+        cases hk : ops[k]? with
+        | none => rfl
+        | some op =>
+          cases op with
+          | resolve j' r' => rfl
+          | call c' b' =>
+            simp only
+            cases hr : (handleCall env ex k c' b').2 with
+            | none => rfl
+            | some p =>
+              simp only
+              cases hfr : firstResolve k (List.drop (k + 1) ops) with
+              | some x => rfl
+              | none =>
+                by_cases hj : j = k
+                · exfalso
+                  have hid := handleCall_pending_id env ex k c' b' p hr
+                  have : IsPending env ex ops p := by
+                    refine ⟨c', b', ?_, ?_, ?_⟩
+                    · rw [hid]; exact hk
+                    · rw [hid]; exact hr
+                    · rw [hid]; exact hfr
+                  exact hnone p ((hp p).mpr this) (by omega)
+                · simp [hj]
+    | some q =>
+      simp only
+      have hq_mem : q ∈ (run env ex ops).1.pending := List.mem_of_find?_eq_some hf
+      have hq_id : q.id = j := by
+        have := List.find?_some hf
+        simpa using this
+      have hq := (hp q).mp hq_mem
+      obtain ⟨cq, bq, hq1, hq2, hq3⟩ := hq
+      rw [hq_id] at hq1 hq2 hq3
+      refine ⟨by simp, ?_, ?_⟩
+      · intro p
+        rw [isPending_snoc_resolve, ← hp]
+        simp [List.mem_filter]
+      · intro k
+        rw [eventsOf_append, eventsOf_tag, he, callEvents_snoc_resolve]
+        by_cases hj : j = k
+        · subst hj
+          unfold callEvents
+          simp [hq1, hq2, hq3]
+        · unfold callEvents
+          simp only [hj, if_false, List.append_nil]
+
+theorem runInv (env : Env V) (ex : Exports) (ops : List (Op V)) : RunInv env ex ops := by
+  have : ∀ l : List (Op V), RunInv env ex l.reverse := by
+    intro l
+    induction l with
+    | nil => exact runInv_nil env ex
+    | cons op t ih =>
+      rw [List.reverse_cons]
+      exact runInv_snoc env ex _ op ih
+  simpa using this ops.reverse
+
+/-- The events of call `k` in the trace of a history. -/
+theorem eventsOf_run (env : Env V) (ex : Exports) (ops : List (Op V)) (k : Nat) :
+    eventsOf k (run env ex ops).2 = callEvents env ex ops k :=
+  (runInv env ex ops).2.2 k
+
+/-- Who is pending at the end of a history. -/
+theorem pending_run (env : Env V) (ex : Exports) (ops : List (Op V)) (p : Pending) :
+    p ∈ (run env ex ops).1.pending ↔ IsPending env ex ops p :=
+  (runInv env ex ops).2.1 p
+
 end Txdbus.Obj.DispatchProofs
